@@ -176,4 +176,69 @@ theorem c14_cross_peer_consumption_witness :
     (run false [.register 1 4 7, .register 1 4 8, .arrive 100 1 4 true true 22 2, .arrive 101 1 4 true true 11 1]).fired
       = [⟨0, 100, 22, 2⟩, ⟨1, 100, 22, 2⟩] := by decide
 
+/-! ### the waiting list neither leaks nor interferes
+
+A processed arrival removes exactly the registrations of its own key: none for that key stays behind (the map entry
+is deleted, `processResponseMsgCallbacks`), the registrations waiting for any other (feature, counter) are the same
+list afterwards, and over a whole history every identifier ever handed out is accounted for — it waits, it was
+invoked, or it is a result callback. So a registration never disappears without having been invoked. -/
+
+/-- an arrival that is processed leaves no registration waiting for its key -/
+theorem c14_delivery_clears_key (b : Bool) (s : St) (a f ref d src : Nat) (reply : Bool)
+    (hproc : ¬ (b = true ∧ f = 0 ∧ reply = true)) :
+    ∀ r ∈ (step b s (.arrive a f ref reply true d src)).regs, isFor f ref r = false := by
+  intro r hr
+  simp only [step] at hr
+  split at hr
+  · rename_i hc
+    exfalso; apply hproc
+    simp only [Bool.not_true, Bool.false_or, Bool.and_eq_true, decide_eq_true_eq] at hc
+    exact ⟨hc.1.1, hc.1.2, hc.2⟩
+  · have := (List.mem_filter.mp hr).2
+    simpa using this
+
+/-- … and touches no registration of another key: what waits for another (feature, counter) is the same list -/
+theorem c14_arrival_frames_other_keys (b : Bool) (s : St) (a f ref d src : Nat) (reply acc : Bool) (f' ref' : Nat)
+    (hk : ¬ (f' = f ∧ ref' = ref)) :
+    (step b s (.arrive a f ref reply acc d src)).regs.filter (isFor f' ref') = s.regs.filter (isFor f' ref') := by
+  simp only [step]
+  split
+  · rfl
+  · rw [List.filter_filter]
+    apply List.filter_congr
+    intro r _
+    simp only [isFor]
+    by_cases h1 : r.feat = f' <;> by_cases h2 : r.ctr = ref' <;> simp [h1, h2]
+    subst h1; subst h2
+    by_cases hf : r.feat = f
+    · right; intro hr; exact hk ⟨hf, hr⟩
+    · left; exact hf
+
+/-- conservation: every identifier handed out so far belongs to a waiting registration, an invoked one or a result
+    callback — nothing is dropped without being invoked -/
+theorem c14_conservation (b : Bool) (evs : List Ev) :
+    (run b evs).regs.length + (run b evs).fired.length + (run b evs).resRegs.length = (run b evs).next := by
+  induction evs using snoc_induction with
+  | nil => rfl
+  | snoc l e ih =>
+    rw [run_snoc]
+    generalize run b l = s at ih ⊢
+    cases e with
+    | register f c cb =>
+      simp only [step]; split
+      · exact ih
+      · simp only [List.length_append, List.length_cons, List.length_nil]; omega
+    | registerResult f cb => simp only [step, List.length_append, List.length_cons, List.length_nil]; omega
+    | resultCbs a f d src => simpa only [step] using ih
+    | arrive a f ref reply acc d src =>
+      simp only [step]; split
+      · exact ih
+      · simp only [List.length_append, List.length_map]
+        have := length_filter_add (isFor f ref) s.regs
+        omega
+
+/-- the hypotheses are met and the conclusions are not empty: two keys wait, one is delivered -/
+example : (run false [.register 1 5 7, .register 1 6 7, .registerResult 1 9, .arrive 100 1 5 true true 3 2]).regs.map (·.ctr) = [6]
+    ∧ (run false [.register 1 5 7, .register 1 6 7, .registerResult 1 9, .arrive 100 1 5 true true 3 2]).next = 3 := by decide
+
 end Spine.Props.C14
